@@ -16,7 +16,8 @@ use std::collections::HashSet;
 use std::panic::{catch_unwind, AssertUnwindSafe};
 
 /// (decoded name, explicit spelling or "" for canonical)
-const NAMES: [(&[u8], &str); 10] = [
+const NAMES: [(&[u8], &str); 11] = [
+    (b"x-amz-signature", ""),
     (b"", ""),
     (b"a", ""),
     (b"a-", ""),
